@@ -164,6 +164,11 @@ func VC10HostileSummary() {
 		put64(int(w.ChunkIndexes[0].ChunkStartOffset) + 1) // the chunk record's length
 	case 10:
 		put64(f.summary[0].start + 1) // the first summary record's length
+	case 11:
+		put64(f.chunks[0].recordsOff + 1) // the length of the first record inside the first chunk
+	case 12:
+		c := f.chunks[0]
+		put64(c.recordsOff + c.inner[len(c.inner)-1].start + 1) // the length of the last record (a message) inside the first chunk
 	}
 	r, err := NewReader(vNewSource(bad))
 	if err != nil {
